@@ -38,8 +38,14 @@ RULES = {
     "receives one parsed expression per argument is handed to the SymPy constructor as it is - it is only ever appended to, never "
     "filtered, sliced, sorted or rebound (`[a for a in args if not (a.is_Integer and a <= 0)]` turns `max(N - 5, 0)` into `N - 5`, which is "
     "-2 for N = 3), and no branch of the production depends on which function is called",
+    "R11": "the grammar has no size limit: no `raise` of the expression tokenizer / parser is governed by an ordering comparison "
+    "(<, <=, >, >=) between a counter - a field or local of these classes that is stepped with += / -= - and a numeric limit (a literal or a "
+    "module constant of 2 or more): the printed form of a dimension may nest parentheses and calls to any depth and be of any length, "
+    "and the parser has to read back every text the library prints; a depth or count guard (the more so one whose counter is not "
+    "wound back on every exit, so that it counts calls seen so far rather than nesting) refuses such text with ValueError - "
+    "lengths compared with len(<text>) and arities compared with == / != are not limits",
 }
-FLOORS = {"R1": 6, "R2": 3, "R3": 3, "R4": 6, "R5": 18, "R6": 2, "R7": 15, "R8": 3, "R9": 1, "R10": 1}
+FLOORS = {"R1": 6, "R2": 3, "R3": 3, "R4": 6, "R5": 18, "R6": 2, "R7": 15, "R8": 3, "R9": 1, "R10": 1, "R11": 4}
 EXPLANATION = (
     "Derives the printer-side vocabulary from the sympy constructors called in SymbolicDim's methods and the "
     "parser-side grammar (tiers, tokens, associativity, operator→SymPy form) from the recursive-descent parser's "
@@ -819,7 +825,65 @@ def rule_r10(ctx):
               construct="argument list of a parsed call altered before the constructor")
 
 
+def rule_r11(ctx):
+    m = ctx.repo.module("onnx_ir._symbolic_shapes")
+    n = 0
+    for cname in ("_ExpressionTokenizer", "_ExpressionParser"):
+        k = m.classes.get(cname)
+        ctx.require(k is not None, f"{cname} not found")
+        meths = [f for f in ctx.repo.live(k.methods.values()) if not isinstance(f.node, ast.Lambda)]
+        counters = set()
+        for f in meths:
+            for a in own_nodes(f.node):
+                if isinstance(a, ast.AugAssign) and isinstance(a.op, (ast.Add, ast.Sub)):
+                    counters.add(norm(a.target))
+
+        def limit(e):
+            if isinstance(e, ast.Constant) and isinstance(e.value, (int, float)) and not isinstance(e.value, bool):
+                return e.value >= 2
+            if isinstance(e, ast.Name) and e.id in m.assigns:
+                v = m.assigns[e.id]
+                return isinstance(v, ast.Constant) and isinstance(v.value, (int, float)) and not isinstance(v.value, bool) and v.value >= 2
+            return False
+
+        def bounded(t):
+            for c in ast.walk(t):
+                if isinstance(c, ast.Compare) and len(c.ops) == 1 and isinstance(c.ops[0], (ast.Lt, ast.LtE, ast.Gt, ast.GtE)):
+                    a_, b_ = c.left, c.comparators[0]
+                    for x, y in ((a_, b_), (b_, a_)):
+                        if limit(y) and any(norm(z) in counters for z in ast.walk(x) if isinstance(z, (ast.Name, ast.Attribute))):
+                            return c
+            return None
+
+        for f in meths:
+            for r in (x for x in own_nodes(f.node) if isinstance(x, ast.Raise)):
+                n += 1
+                tests = []
+                child, par = r, getattr(r, "_parent", None)
+                while par is not None:
+                    for fld in ("body", "orelse"):
+                        blk = getattr(par, fld, None)
+                        if isinstance(blk, list) and child in blk:
+                            tests += [p_.test for p_ in blk[: blk.index(child)] if isinstance(p_, ast.If) and p_.body and isinstance(p_.body[-1], (ast.Return, ast.Continue, ast.Break))]
+                            if isinstance(par, (ast.If, ast.While)):
+                                tests.append(par.test)
+                    if par is f.node:
+                        break
+                    child, par = par, getattr(par, "_parent", None)
+                bad = None
+                for t in tests:
+                    bad = bad or bounded(t)
+                ctx.check("R11", f"{f.local}: `{norm(r)[:50]}` is not a size limit", bad is None, f, bad if bad is not None else r,
+                          f"`{norm(r)[:70]}` is raised when `{norm(bad) if bad is not None else ''}` - a counter compared with a fixed limit: text the library itself prints for a "
+                          "dimension (a long sum of `floor(...)` / `Mod(...)` terms, deeply nested parentheses) is refused with ValueError when it is read back, instead of "
+                          "parsing to an expression with the same evaluations",
+                          how="tests governing each raise of the tokenizer / parser × ordering comparisons of a stepped counter (+= / -=) with a numeric literal or module constant >= 2",
+                          construct=f"size limit {norm(bad) if bad is not None else ''}")
+    ctx.require(n >= 4, f"only {n} raise statements found in the expression tokenizer / parser")
+
+
 def run(ctx):
+    rule_r11(ctx)
     rule_r10(ctx)
     rule_r9(ctx)
     rule_r8(ctx)
